@@ -224,6 +224,25 @@ func c14(ctx *Ctx) {
 			add("C14/B/required/"+q, set, false, true)
 		}
 	}
+	// the two names of a pair as the only property of two different structs of one run: what is remembered about a field of the first
+	// struct (its Go name is often the same) must not reach the second
+	for _, set := range c14Sets(0) {
+		for _, required := range []bool{false, true} {
+			id := fmt.Sprintf("C14/B/two-structs/%q/required=%v", set, required)
+			inner := func(n string) J {
+				o := J{"type": "object", "properties": J{n: J{"type": "string"}}}
+				if required {
+					o["required"] = A{n}
+				}
+				return o
+			}
+			doc := map[string]any{"s0": map[string]any{set[0]: "v0"}, "s1": map[string]any{set[1]: "v1"}}
+			cases = append(cases, SCase{ID: id, Cfg: baseCfg(), Axes: map[string]string{"pos": "siblings", "leaf": strings.Join(set, "|")},
+				Schema: J{"type": "object", "properties": J{"s0": inner(set[0]), "s1": inner(set[1])}}})
+			docOf[id] = jsonv.Text(doc)
+			wantOf[id] = doc
+		}
+	}
 	for _, n := range c14TagBreaking {
 		add(fmt.Sprintf("C14/B/tag-breaking/%q", n), []string{n, "other"}, false, false)
 		add(fmt.Sprintf("C14/B/tag-breaking-required/%q", n), []string{n, "other"}, false, true)
